@@ -2,8 +2,9 @@
    validation, equality, inverse.  The name sets of gate.py are NOT typed here: they are a
    record [tables] which the translator regenerates from the source on every run (gen/GateTables.v).
    The angle type and the two float predicates used by the code are parameters:
-     ang_small a   models   abs(a) % (2*pi) < param_threshold
-     ang_eqmod a b models   round(a % (2*pi), 7) == round(b % (2*pi), 7)                      *)
+     ang_small l a   models   abs(a) % period < param_threshold
+     ang_eqmod l a b models   round(a % period, 7) == round(b % period, 7)
+   where period is the long one (4*pi, controlled rotations) when l = true, else 2*pi.          *)
 From Coq Require Import String Ascii ZArith List Bool.
 Import ListNotations.
 Open Scope string_scope.
@@ -28,7 +29,9 @@ Record tables : Type := Tables {
   invertible : list string;
   clifford : list string;
   rot_small : list string;       (* rot_gates of remove_small_rotations *)
-  rot_merge : list string        (* rot_gates of merge_rotations *)
+  rot_merge : list string;       (* rot_gates of merge_rotations *)
+  eq_long : list string;         (* names compared modulo the long period (4*pi) in Gate.__eq__ *)
+  small_long : list string       (* names reduced modulo the long period in remove_small_rotations *)
 }.
 
 Definition smem (s : string) (l : list string) : bool := existsb (String.eqb s) l.
@@ -53,7 +56,7 @@ Definition ozlist_eqb (a b : option (list Z)) : bool :=
 Section Gate.
   Variable Ang : Type.
   Variable ang_opp : Ang -> Ang.
-  Variable ang_eqmod : Ang -> Ang -> bool.
+  Variable ang_eqmod : bool -> Ang -> Ang -> bool.
 
   Inductive param : Type := PNone | PNum (a : Ang) | PStr (s : string).
 
@@ -102,19 +105,19 @@ Section Gate.
 
   Definition is_cnot (s : string) : bool := String.eqb s "CNOT" || String.eqb s "CX".
 
-  Definition param_eq (p q : param) : bool :=
+  Definition param_eq (long : bool) (p q : param) : bool :=
     match p, q with
     | PNone, PNone => true
-    | PNum a, PNum b => ang_eqmod a b
+    | PNum a, PNum b => ang_eqmod long a b
     | PStr s, PStr t => String.eqb s t
     | _, _ => false
     end.
 
   (* Gate.__eq__ *)
-  Definition gate_eq (g h : pgate) : bool :=
+  Definition gate_eq (T : tables) (g h : pgate) : bool :=
     (if is_cnot (pname g) && is_cnot (pname h) then true else String.eqb (pname g) (pname h))
     && zlist_eqb (ptarget g) (ptarget h) && ozlist_eqb (pcontrol g) (pcontrol h)
-    && Bool.eqb (pvar g) (pvar h) && param_eq (pparam g) (pparam h).
+    && Bool.eqb (pvar g) (pvar h) && param_eq (smem (pname g) (eq_long T)) (pparam g) (pparam h).
 
   (* Gate.inverse; sym_s / sym_t : the parameters -pi/2 and -pi/4 of the inverse of S and T *)
   Variable ang_mpi2 : Ang.
